@@ -456,6 +456,75 @@ def wLoop (n k : Nat) (P : Nat → List Vec) (oracle : List Vec → Vec → Opti
 /-- `addDefaultEntry`: the all-zero choice is tried and is the only agenda entry; U is empty -/
 def wInit (k : Nat) : WState := ⟨[], [List.replicate k 0], [List.replicate k 0]⟩
 
+/-! ## LinearSupport: the agenda loop of `LinearSupport::operator()` for one timestep (vertex enumeration = oracle parameter) -/
+
+/-- `struct Vertex { belief, support, currentValue, error }` -/
+structure LSVertex where
+  belief : Vec
+  support : Vec
+  currentValue : Rat
+  error : Rat
+
+/-- goodSupports, agenda_, triedVertices, and the `vertices` batch to examine next -/
+structure LSState where
+  good : List Vec
+  agenda : List LSVertex
+  tried : List Vec
+  verts : List Vec
+
+/-- the `for` over `vertices`: skip tried ones; `trueValue`/`support` from `crossSumBestAtBelief(vertex, projections)`,
+    `currentValue` recomputed with `findBestAtPoint` over goodSupports; push when `acc (trueValue - currentValue)`
+    (`diff > tolerance_ && checkDifferentGeneral(diff, tolerance_)`); always mark tried -/
+def lsScan (m : Model) (τ : Rat) (Γ : List Vec) (acc : Rat → Bool) (good : List Vec) :
+    List Vec → List LSVertex → List Vec → List LSVertex × List Vec
+  | [], ag, tr => (ag, tr)
+  | x :: xs, ag, tr =>
+    if tr.any (fun y => y == x) then lsScan m τ Γ acc good xs ag tr
+    else
+      let sup := bestBackupAt m τ Γ x
+      let cur := env m.S good x
+      let diff := dot m.S x sup - cur
+      lsScan m τ Γ acc good xs (if acc diff then ag ++ [⟨x, sup, cur, diff⟩] else ag) (x :: tr)
+
+/-- `agenda_.top()`: an entry of largest error (first one among equals) -/
+def lsTop : List LSVertex → Option LSVertex
+  | [] => none
+  | [v] => some v
+  | v :: w :: r => match lsTop (w :: r) with
+    | some t => if t.error < v.error then some v else some t
+    | none => some v
+
+/-- one pass of the `do { … } while (true)` body; `none` = `break` (agenda empty after the scan) -/
+def lsStep (m : Model) (τ : Rat) (Γ : List Vec) (acc : Rat → Bool) (oracle : Vec → List Vec → List Vec) (st : LSState) : Option LSState :=
+  let r := lsScan m τ Γ acc st.good st.verts st.agenda st.tried
+  match lsTop r.1 with
+  | none => none
+  | some best =>
+    -- pop `best`, then erase every entry the new support makes obsolete
+    let rest := (r.1.filter (fun v => !(v.belief == best.belief && v.support == best.support))).filter
+                  (fun v => !(decide (v.currentValue < dot m.S v.belief best.support)))
+    some ⟨st.good ++ [best.support], rest, r.2, oracle best.support st.good⟩
+
+def lsLoop (m : Model) (τ : Rat) (Γ : List Vec) (acc : Rat → Bool) (oracle : Vec → List Vec → List Vec) : Nat → LSState → LSState
+  | 0, st => st
+  | f+1, st => match lsStep m τ Γ acc oracle st with
+    | none => { st with agenda := [], tried := (lsScan m τ Γ acc st.good st.verts st.agenda st.tried).2, verts := [] }
+    | some st' => lsLoop m τ Γ acc oracle f st'
+
+/-- unit vector e_s -/
+def cornerB (n s : Nat) : Vec := mkVec n (fun i => if i = s then 1 else 0)
+
+/-- supports of the corners, duplicates dropped (`allSupports.emplace` / `inserted`) -/
+def lsCorners (m : Model) (τ : Rat) (Γ : List Vec) : Nat → List Vec
+  | 0 => []
+  | s+1 =>
+    let g := lsCorners m τ Γ s
+    let sup := bestBackupAt m τ Γ (cornerB m.S s)
+    if g.any (fun y => y == sup) then g else g ++ [sup]
+
+/-- convex combination Σ λ_i x_i of weighted points -/
+def combo (n : Nat) (L : List (Rat × Vec)) : Vec := mkVec n (fun s => (L.map (fun p => p.1 * p.2.get s)).sum)
+
 /-! ## round 2 -/
 
 /-- the per-action merge of `IncrementalPruning::operator()` run on C04's literal copy of the schedule
